@@ -50,6 +50,10 @@ def alphabet(p, p1, q):
     ]
 
 
+def alphabet_async_extra(p, p1, q):
+    return [("PP-DURING-REQUEST", [[(p, A)], [(q, B)]]), ("PP-DURING-REQUEST", [[(p, C)], [(p, A)], [(p1, B)]])]
+
+
 def statp(records):
     return b"STATP" + bytes([len(records)]) + b"".join(struct.pack(">H", pos) + d for pos, d in records)
 
@@ -144,6 +148,29 @@ def _run_async(history, early=None):
                 ref = apply_ref(ref, recs)
             n_statp = len(arg)
             rig.loop.run_for(len(arg) * 0.25 + 3.0)
+        elif kind == "PP-DURING-REQUEST":
+            # a request of the client's own is outstanding (its answer is lost: it waits out the time-out holding the
+            # request lock) while partial updates keep arriving
+            rig.spa._last_ping = rig.loop.time()
+            lost = []
+
+            def drop(data, src):
+                if b"GETWC" in data and not lost:
+                    lost.append(1)
+                    return True
+                return False
+
+            rig.peer.drop_request = drop
+            with rig.loop.running():
+                rt = rig.loop.create_task(rig.spa.async_get_watercare(), name="HARNESS:request")
+            rig.loop.run_for(0.3)
+            for k, recs in enumerate(arg):
+                rig.inject_statp(recs, delay=0.3 * k)
+                ref = apply_ref(ref, recs)
+            n_statp = len(arg)
+            rig.loop.run_for(12.0, rt.done)
+            rig.loop.run_for(1.0)
+            rig.peer.drop_request = None
         elif kind == "RECONNECT":
             # the SAME GeckoAsyncSpa object is disconnected and connected again (what a client that manages the spa
             # object itself does); the spa serves its current block in the new handshake
@@ -428,7 +455,7 @@ def _init_alpha():
     if q + 2 > lc.begin + lc.end or q + 2 > 1024:
         raise core.HarnessError("C05: positions outside the refresh window")
     _POS["ppq"] = (p, p1, q)
-    _ALPHA["async"] = alphabet(p, p1, q)
+    _ALPHA["async"] = alphabet(p, p1, q) + alphabet_async_extra(p, p1, q)
     _ALPHA["threaded"] = alphabet(p, p1, q)
 
 
@@ -440,6 +467,7 @@ def run(ctx):
     transitions = 0
     traces = 0
     for kind in ("async", "threaded"):
+        n_alpha = len(_ALPHA[kind])
         jobs = []
         for d in range(1, depth[kind] + 1):
             for idxs in itertools.product(range(n_alpha), repeat=d):
